@@ -74,6 +74,27 @@ def union_cases(seed, n):
                 data = items if s is u else [{"e": x, "es": [x, items[(k + 1) % 4]]} for k, x in enumerate(items)]
                 out.append((s, data, {"dtn": False, "strict": False}))
                 continue
+            if i % 15 == 1:
+                # unions of 70-140 branches: positions around 63/64 and 127/128 (where the index's varint grows), with tuple
+                # hints, '-type' hints and no hint at all
+                nb = r.choice([70, 100, 130, 140])
+                if r.random() < 0.5:
+                    u = [{"type": "fixed", "name": "Fx%d" % k, "size": k + 1} for k in range(nb)]
+                    mkv = lambda k, hint: (("Fx%d" % k, bytes([k % 256]) * (k + 1)) if hint else bytes([k % 256]) * (k + 1))
+                else:
+                    u = [{"type": "record", "name": "R%d" % k, "fields": [{"name": "f%d" % k, "type": "int"}]} for k in range(nb)]
+                    mkv = lambda k, hint: (("R%d" % k, {"f%d" % k: k}) if hint == "tuple" else ({"-type": "R%d" % k, "f%d" % k: k} if hint else {"f%d" % k: k}))
+                pos = [p_ for p_ in (0, 62, 63, 64, 65, 100, 126, 127, 128, 129, nb - 1) if p_ < nb]
+                shape = r.random()
+                if shape < 0.5:
+                    s, wrapv = u, (lambda x: x)
+                elif shape < 0.8:
+                    s, wrapv = {"type": "array", "items": u}, (lambda x: [x, x])
+                else:
+                    s, wrapv = {"type": "record", "name": "Wb", "fields": [{"name": "u", "type": u}, {"name": "z", "type": "int"}]}, (lambda x: {"u": x, "z": 1})
+                data = [wrapv(mkv(k, r.choice([None, "tuple", "type"]))) for k in r.sample(pos, min(6, len(pos)))]
+                out.append((s, data, {"dtn": False, "strict": False}))
+                continue
             if i % 15 == 3:
                 # the ends of the int and long ranges under unions whose branches differ only in range
                 ints = [-2 ** 31, 2 ** 31 - 1, -2 ** 31 - 1, 2 ** 31, -2 ** 63, 2 ** 63 - 1, 0, -1, 1]
